@@ -53,10 +53,10 @@ def handle : List String → Option String
       -- ops: `w:i:v` / `h:i:v` assignments; the frame size follows the sum of the changed dimension
       let ops ← if ops == "!" then some [] else (ops.splitOn "/").mapM parseSizeOp
       let (ws, hs, fw, fh) := ops.foldl (fun (ws, hs, fw, fh) (k, i, v) =>
-        if k == "w" then let ws' := setSize ws i v; (ws', hs, sumL ws', fh)
-        else if k == "h" then let hs' := setSize hs i v; (ws, hs', fw, sumL hs')
-        else if k == "W" then (ws, hs, v, fh)         -- the caller resizes the graphic frame itself
-        else (ws, hs, fw, v)) (ws, hs, w, h)
+        if k == "w" then (match setItem ⟨ws, fw⟩ i v with | some s' => (s'.items, hs, s'.frame, fh) | none => (ws, hs, fw, fh))
+        else if k == "h" then (match setItem ⟨hs, fh⟩ i v with | some s' => (ws, s'.items, fw, s'.frame) | none => (ws, hs, fw, fh))
+        else if k == "W" then (if posOk v then (ws, hs, v, fh) else (ws, hs, fw, fh))   -- the caller resizes the graphic frame itself
+        else (if posOk v then (ws, hs, fw, v) else (ws, hs, fw, fh))) (ws, hs, w, h)
       pure s!"{encIntList ws} {encIntList hs} {fw} {fh}"
   | _ => none
 end Pptx.Drv.C14
